@@ -4,9 +4,12 @@ Decides: (a) every value the builders put into a CAM / VAM / DENM dictionary fit
 shape (dict / (name, value) tuple / (bytes, bits) pair / enumerator string), member and alternative names, enumerators,
 mandatory members of the white templates, and for INTEGERs the range reachable from the quantifier's input ranges
 (interval interpretation with guard refinement); (b) the scaling coefficient of position / speed / heading values;
-(c) what the readers of decoded messages subscript.  These are exactly the conditions under which the encoder raises,
-wraps or silently drops a value.
-Does not decide bit-exact UPER output, truncation vs rounding, reconstruction arithmetic of generationDeltaTime.
+(c) what the readers of decoded messages subscript; (d) that a measured value can never land on an element's
+`unavailable` code point; (e) generationDeltaTime: the receiver-side reconstruction as a formula identity (same cycle /
+one cycle earlier, decided by the comparison with the reception time), the wrap-aware difference, and that sender code
+never orders two generationDeltaTime values other than through that difference.  (a)-(d) are exactly the conditions
+under which the encoder raises, wraps or silently drops a value.
+Does not decide bit-exact UPER output nor truncation vs rounding.
 """
 from __future__ import annotations
 
